@@ -1,6 +1,7 @@
 package main
 
 import (
+	"regexp"
 	"fmt"
 	"go/token"
 	"go/types"
@@ -554,6 +555,34 @@ func (e *Enc) loopCands(fr *Frame, li *loopInfo) []*invCand {
 			}
 		}
 	}
+	// map ranges: a ghost counter of completed iterations (= number of visited keys, hence below the map's
+	// length while the iterator yields another key); an integer variable that counts the iterations
+	// (`i := 0; for k := range m { s[i] = k; i++ }`) equals it
+	if li.isMapRange && li.iter == "" {
+		li.iter = e.freshConst(fr.pfx+"iter", "Int")
+		for _, in := range li.head.Instrs {
+			ph, ok := in.(*ssa.Phi)
+			if !ok {
+				break
+			}
+			if !isInteger(ph.Type()) || ph.Comment == "rangeindex" {
+				continue
+			}
+			ph2 := ph; ph = ph2
+			e.n++
+			c := &invCand{id: e.n, auto: true, name: fmt.Sprintf("loop %d auto counts-iterations(%s)", li.ord, phiName(ph))}
+			c.eval = func(st *State, phiVal func(*ssa.Phi) string) (string, error) {
+				switch li.point {
+				case "entry":
+					return "(= " + phiVal(ph) + " 0)", nil
+				case "back":
+					return "(= " + phiVal(ph) + " (+ " + li.iter + " 1))", nil
+				}
+				return "(= " + phiVal(ph) + " " + li.iter + ")", nil
+			}
+			li.cands = append(li.cands, c)
+		}
+	}
 	// automatic candidates (kept only if inductive: Houdini)
 	for _, in := range li.head.Instrs {
 		ph, ok := in.(*ssa.Phi)
@@ -896,7 +925,9 @@ func (e *Enc) loopEntryObs(fr *Frame, li *loopInfo, conds []string, preds []*Sta
 			li.point = "entry"
 			f, err := c.eval(preds[i], func(ph *ssa.Phi) string { return e.val(fr, ph.Edges[pi]) })
 			if err != nil {
-				e.bindErrs = append(e.bindErrs, fmt.Sprintf("%s: %s: %v", shortName(fr.fn), c.name, err))
+				if !c.auto {
+					e.bindErrs = append(e.bindErrs, fmt.Sprintf("%s: %s: %v", shortName(fr.fn), c.name, err))
+				}
 				continue
 			}
 			e.cur = conds[i]
@@ -927,6 +958,9 @@ func (e *Enc) loopAssume(fr *Frame, li *loopInfo, st *State) {
 		if ph.Comment == "rangeindex" {
 			e.assumeG("(>= " + fr.vals[ph] + " (- 1))")
 		}
+	}
+	if li.iter != "" {
+		e.assumeG("(>= " + li.iter + " 0)")
 	}
 	for _, c := range e.loopCands(fr, li) {
 		li.point = "head"
@@ -1313,6 +1347,10 @@ func (e *Enc) verifyFunc() {
 				e.cur = "true"
 				o := e.addOb(fr, "POST", "complete", loopPos(h), fmt.Sprintf("loop %d is left only when its range is exhausted", n), cond, false)
 				o.tags = tags
+				if li.isMapRange {
+					// leaving a map range early makes the result depend on the iteration order (C03)
+					o.tags = append(append([]string{}, tags...), "C03")
+				}
 				if early != "" {
 					o.Output = "left early at " + shortPath(early)
 				}
@@ -1545,22 +1583,47 @@ func (e *Enc) siteAsserts(fr *Frame, st *State, c *ssa.Call) {
 	}
 }
 
-// siteGhosts: ghost Booleans defined at the end of the block that contains their call site.
-func (e *Enc) siteGhosts(fr *Frame, b *ssa.BasicBlock, st *State) {
+var ghostIdentRe = regexp.MustCompile(`[A-Za-z_][A-Za-z_0-9]*`)
+
+// ghostIsImmediate: the ghost's expression mentions nothing but the call's own result (or is just `true`), so
+// it can be defined directly behind the call and be used by assertions later in the same block.
+func ghostIsImmediate(text string) bool {
+	for _, id := range ghostIdentRe.FindAllString(text, -1) {
+		if id != "true" && id != "callresult" {
+			return false
+		}
+	}
+	return true
+}
+
+// siteGhosts: ghosts are defined at the end of the block that contains their call site (their expression may
+// name values computed from the call's results further down the block); only == nil: all of the block's
+// remaining ghosts, otherwise the immediate ghosts of that one call.
+func (e *Enc) siteGhosts(fr *Frame, b *ssa.BasicBlock, st *State, only ssa.Instruction) {
 	ct := fr.contract
 	if ct == nil || fr.inl || len(ct.Ghosts) == 0 {
 		return
 	}
 	for _, in := range b.Instrs {
 		c, ok := in.(*ssa.Call)
-		if !ok {
+		if !ok || (only != nil && in != only) {
 			continue
 		}
 		name, k := callOrdinal(fr.fn, c)
-		for _, sc := range ct.Ghosts {
+		for gi, sc := range ct.Ghosts {
 			if !siteMatches(sc, name, k) {
 				continue
 			}
+			if only != nil && !ghostIsImmediate(sc.Clause.Text) {
+				continue
+			}
+			if fr.ghostDone == nil {
+				fr.ghostDone = map[int]bool{}
+			}
+			if fr.ghostDone[gi] {
+				continue
+			}
+			fr.ghostDone[gi] = true
 			env := e.siteEnv(fr, b, st)
 			// the value the call returned (single result) is visible as callresult
 			if t, ok := fr.vals[c]; ok && c.Type() != nil {
@@ -1725,7 +1788,7 @@ func (e *Enc) structuralBindCheck(fr *Frame) {
 	for _, sc := range ct.Ghosts {
 		before := len(e.bindErrs)
 		site(sc, "ghost")
-		if len(e.bindErrs) > before && strings.TrimSpace(sc.Clause.Text) == "true" {
+		if len(e.bindErrs) > before && (strings.TrimSpace(sc.Clause.Text) == "true" || e.spec.boolGhosts[shortName(fr.fn)+"|"+sc.Name]) {
 			// a "was this call reached" ghost whose call does not exist: it is never reached
 			e.ghost[sc.Name] = "false"
 			e.ghostType[sc.Name] = types.Typ[types.Bool]
